@@ -91,7 +91,7 @@ class Ctx(object):
 
 def plan(tier, seed):
     from hv import scen
-    n = 10 if tier == 'quick' else 160
+    n = 10 if tier == 'quick' else 500
     sp = []
     for y in (2021, 2022, 2023):
         for g in ([scen.FAMILIES[0:3], scen.FAMILIES[3:6], scen.FAMILIES[6:9], scen.FAMILIES[9:12]] if tier == 'quick' else [[f] for f in scen.FAMILIES]):
@@ -320,10 +320,10 @@ def run_shard(spec, tier, seed):
                         names.append(fld.name())
                 q = p      # the same persona answers whatever else is asked (its answers are a function of the input name)
                 from hv import trace as _tr
-                with _tr.Tracer(ceiling=realwork.CEILING) as t2:
+                with _tr.Tracer(ceiling=realwork.CEILING, record_reads=False) as t2:
                     classes = __import__('hv.hx', fromlist=['catalogue']).catalogue(year)
                     o2 = drive.run_solver(classes, drive.config_from(dict(p.answers)), forms, field_names=names,
-                                          answer=lambda m, nb: q.answer(m), tracer=t2)
+                                          answer=lambda m, nb: q.answer(m), tracer=t2, sort_key=drive.plain_name_key)
                 tv2 = _tr.TraceView(t2.events)
                 sol2 = {k: v[-1] for k, v in tv2.stored.items()}
                 if sol2:
